@@ -1,7 +1,7 @@
 //! C14 (commit admits exactly what the circuit can prove) and C15 (padding / shuffle / preimages).
 
 use crate::cso::{f, u};
-use crate::leaf::{rand_d4, D4, P};
+use crate::leaf::{rand_d4, D4};
 use crate::util::{Ctx, Report};
 use crate::wrap::*;
 use crate::wrapcheck::{random_inners, random_vector, vec_json, Inject, PubInject};
@@ -51,7 +51,7 @@ pub fn run_c14(ctx: &Ctx) -> i32 {
     rep.assume("child circuit = fake 21-PI / (21N+8)-PI circuit with free public inputs (the constructors accept any child circuit of the right shape); statements are restricted to ones the real child circuit can attest");
     let fake = FakeLeaf::build(LEAF_PI);
     let template = fake.prove(&zero_slot().to_pis()).unwrap();
-    let sizes: Vec<usize> = ctx.tier.pick(vec![2usize, 3], vec![1usize, 2, 3, 4]);
+    let sizes: Vec<usize> = ctx.tier.pick(vec![2usize], vec![1usize, 2, 3, 4]);
     for &n in &sizes {
         let full = match PrivFull::build(&fake.data, n) {
             Ok(x) => x,
@@ -62,7 +62,7 @@ pub fn run_c14(ctx: &Ctx) -> i32 {
         };
         let vd = full.data.verifier_data();
         let w = PrivW::build(n).unwrap();
-        let cases = ctx.tier.pick(60usize, 900) / sizes.len();
+        let cases = ctx.tier.pick(45usize, 900) / sizes.len();
         (0..cases).into_par_iter().for_each(|ci| {
             if ctx.over_budget() {
                 return;
@@ -186,7 +186,7 @@ pub fn run_c14(ctx: &Ctx) -> i32 {
     let template = fake_inner.prove(&tv).unwrap();
     if let Ok(full) = PubFull::build(&fake_inner.data, m, n) {
         let vd = full.data.verifier_data();
-        let cases = ctx.tier.pick(24usize, 400);
+        let cases = ctx.tier.pick(18usize, 400);
         (0..cases).into_par_iter().for_each(|ci| {
             if ctx.over_budget() {
                 return;
@@ -287,7 +287,7 @@ pub fn run_c15(ctx: &Ctx) -> i32 {
     let fake = FakeLeaf::build(LEAF_PI);
     let template = fake.prove(&zero_slot().to_pis()).unwrap();
     let combos: Vec<(usize, usize)> = ctx.tier.pick(vec![(2, 1), (2, 2), (3, 2), (4, 1), (4, 3)], vec![(2, 1), (2, 2), (3, 1), (3, 2), (3, 3), (4, 1), (4, 2), (4, 3), (4, 4)]);
-    let commits_per = ctx.tier.pick(2400usize, 60_000);
+    let commits_per = ctx.tier.pick(1200usize, 60_000);
     combos.par_iter().for_each(|&(n, k)| {
         let mut rng = ctx.sub_rng("c15", (n * 10 + k) as u64);
         let Ok(mut prover) = PrivateBatchProver::new(wormhole_private_batch_circuit_config(), fake.data.common.clone(), &fake.data.verifier_only, n, template.clone()) else {
